@@ -29,6 +29,6 @@ case "$cmd" in
   [ -z "$(git -C /repo status --porcelain)" ] || { echo "/repo dirty"; exit 2; }
   git -C /repo apply "$diff" || { echo "APPLY FAILED"; exit 2; }
   (cd /verif && VERIF_BUDGET_S=$budget ./check "$prop" quick 2>&1 | grep -v "^KNOWN-FINDING" | cut -c1-330 | tail -6)
-  git -C /repo checkout -- . ; git -C /repo status --short
+  git -C /repo checkout -- . ; git -C /repo clean -fdq ; git -C /repo status --short
   ;;
 esac
